@@ -150,6 +150,44 @@ def run(ctx, res):
                          'after loading game.p8 in another directory, #include %s from %s/game.p8 (relative name) %s' % (
                              inc.decode(), os.path.basename(d), 'accessed %s outside its directory' % bad[0] if bad else 'was accepted'),
                          {'history': 'load proj_a/game.p8 as "game.p8" with cwd=proj_a, chdir proj_b, load "game.p8"', 'include': inc.decode()})
+        # a cart directory literally named `~` (or `$HOME`), named relatively, with the working directory inside the (redirected) home
+        home3 = os.path.join(base, 'home3')
+        work = os.path.join(home3, 'work')
+        saved_home3 = os.environ.get('HOME')
+        os.environ['HOME'] = home3
+        try:
+            for dname in ('~', '$HOME', '~root'):
+                cd = os.path.join(work, dname)
+                I.write(os.path.join(cd, 'inc.lua'), b'inside=1\n')
+                I.write(os.path.join(work, 'secret.lua'), b'canary_work=1\n')
+                I.write(os.path.join(home3, 'secret.lua'), b'canary_home=1\n')
+                I.write(os.path.join(home3, 'cart.p8'), template)
+                os.makedirs(os.path.join(work, 'x'), exist_ok=True)
+                os.chdir(work)
+                for inc in (b'inc.lua', b'../secret.lua', b'../../secret.lua', home3.encode() + b'/secret.lua'):
+                    # (a name that BEGINS with `~` is, by documented convention, the user's home: not exercised here)
+                    for given in ('./%s/cart.p8' % dname, './/%s/cart.p8' % dname, 'x/../%s/cart.p8' % dname, os.path.join(work, dname, 'cart.p8')):
+                        I.write(os.path.join(cd, 'cart.p8'), template.replace(b'x=1\n', b'#include ' + inc + b'\nx=1\n'))
+                        with I.Recorder() as rec:
+                            try:
+                                gfile.from_file(given)
+                                status = 'ok'
+                            except Exception as e:
+                                status = 'err ' + U.exc_kind(e)
+                        res.evaluations += 1
+                        res.count('include-literal-tilde-dir:' + status)
+                        res.nontrivial.add(('inc-tilde', dname, inc, given))
+                        bad = [t for t in rec.touched() if not I.under(t, cd)]
+                        if bad or (inc != b'inc.lua' and status == 'ok') or (inc == b'inc.lua' and status != 'ok'):
+                            res.fail('C12:include-tilde-dir:%s:%s:%s' % (dname, inc.decode(), given),
+                                     'cart %s (a directory literally named %s): #include %s %s' % (
+                                         given, dname, inc.decode(), 'accessed %s outside the cart directory' % bad[0] if bad else 'gave %s' % status),
+                                     {'cart': given, 'include': inc.decode(), 'HOME': 'an ancestor of the working directory'})
+        finally:
+            if saved_home3 is None:
+                os.environ.pop('HOME', None)
+            else:
+                os.environ['HOME'] = saved_home3
     finally:
         os.chdir(saved_cwd)
     # ---- require()
